@@ -49,3 +49,4 @@ pub fn catch<T>(f: impl FnOnce() -> T) -> Result<T, String> {
         }),
     }
 }
+pub mod irdump;
